@@ -71,7 +71,7 @@ func c19uLeaks(text string) []string {
 	return out
 }
 
-var c19uHelpers = []string{"OpenRedisConn", "OpenRedisConnWithTimeout", "OpenRedisConn-cluster", "OpenNetConn", "OpenNetConnSoft", "GetRedisVersion", "GetRDBChecksum", "AuthPassword"}
+var c19uHelpers = []string{"OpenRedisConn", "OpenRedisConnWithTimeout", "OpenRedisConn-cluster", "OpenNetConn", "OpenNetConnSoft", "GetRedisVersion", "GetRDBChecksum", "AuthPassword", "GetSlotDistribution"}
 var c19uEnvs = []string{"refused", "auth-ok", "auth-rejected", "auth-unknown-echo", "peer-closes"}
 var c19uClusterEnvs = []string{"unreachable", "standalone-peer", "standalone-peer-echo", "peer-closes"}
 
@@ -189,6 +189,9 @@ func c19uRun(c c19uCase) (leaks []string, sites int) {
 			if conn := OpenNetConnSoft(target, c.AuthType, c19uPw, false); conn != nil {
 				conn.Close()
 			}
+		case "GetSlotDistribution":
+			_, err := GetSlotDistribution(target, c.AuthType, c19uPw, false)
+			note(err)
 		case "GetRedisVersion":
 			v, err := GetRedisVersion(target, c.AuthType, c19uPw, false)
 			note(err)
@@ -240,9 +243,15 @@ func c19uRun(c c19uCase) (leaks []string, sites int) {
 		if strings.HasPrefix(tx, "harness:") {
 			leaks = append(leaks, tx)
 		} else if l := c19uLeaks(tx); len(l) > 0 {
-			// an error value is not output yet: it becomes a finding where a caller prints it
-			// (those callers are driven by the other parts); counted, not judged
-			ev.Count("returned_texts_carrying_the_password", 1)
+			if c.Helper == "AuthPassword" {
+				// its error carries the peer's reply (which may echo the arguments); every caller
+				// discards it, and the parts that drive those callers watch their log lines: counted, not judged
+				ev.Count("returned_texts_carrying_the_password", 1)
+			} else {
+				// the callers of the other helpers print the error they get back (start-up checks,
+				// sync/dump/restore entry points): a password in it is a password in the log
+				leaks = append(leaks, fmt.Sprintf("%s in the %s (its callers log it)", strings.Join(l, ", "), tx))
+			}
 		}
 	}
 	return
